@@ -261,7 +261,7 @@ def run(ctx):
     )
     specs = sheets(ctx)
     n = rules = 0
-    for cnt, r, vs in ctx.pmap(chunk, specs, chunksize=2):
+    for cnt, r, vs in ctx.pmap_forked(chunk, specs, chunksize=2):
         n += cnt
         rules += r
         ctx.add_violations(vs)
